@@ -311,6 +311,8 @@ impl GroupStorage for MdkSqliteStorage {
                     params![group_id.as_slice()],
                 )
                 .map_err(into_group_err)?;
+                #[cfg(feature = "verif-hooks")]
+                crate::verif::tick(crate::verif::Point::Txn("relays:after_delete"));
 
                 for relay_url in &relays {
                     conn.execute(
@@ -318,6 +320,8 @@ impl GroupStorage for MdkSqliteStorage {
                         params![group_id.as_slice(), relay_url.as_str()],
                     )
                     .map_err(into_group_err)?;
+                    #[cfg(feature = "verif-hooks")]
+                    crate::verif::tick(crate::verif::Point::Txn("relays:after_insert"));
                 }
                 Ok(())
             })();
